@@ -1108,6 +1108,9 @@ def oracle(seed: int, scale: float) -> dict:
 def replay(case) -> bool:
     """Re-run one oracle case; True iff a violation of the SAME class is still observed."""
     cls = case.get("class")
+    if cls == "synthetic-name-collision":
+        from . import faith3
+        return faith3.replay(case)
     if cls and cls.startswith("UNEXPECTED-in-proved-fragment:"):
         cls = cls.split(":", 1)[1]
     name = case.get("name")
